@@ -109,7 +109,7 @@ func runGen(seed uint64, programs, length int, kind, profile, opsPath, outPath, 
 			fmt.Fprintf(ops, "begin kind=%s prog=%d\n", kind, p)
 		}
 		fmt.Fprintf(out, "begin\n")
-		g := &Gen{r: rng, w: w, profile: profile, oldCas: map[string][]uint64{}, stats: stats}
+		g := &Gen{r: rng, w: w, profile: profile, oldCas: map[string][]uint64{}, stats: stats, force: -1}
 		g.emit = func(l Line) string {
 			res, hung := execWatchdog(w, l)
 			fmt.Fprintln(ops, l.String())
